@@ -78,3 +78,18 @@ CLAIMED["C03"] = {
   "note": "That exactly the selected rows are moved, in order, and the coalescer's batch sizes are value/history-level and not decided.",
   "technique": "dispatch-table evaluation per enum constructor + sibling-arm agreement on MIR",
 }
+
+# ---- rules added after rounds 2/3 of seeding (appended so the per-property texts above stay as reviewed)
+_ADD = {
+ "C01": " Also: the C09 ratchets (deciding inputs of 42 validators; enabling-condition profile of 41), sink-level arm agreement, and belief consistency of all 25 comparisons against MAX_INLINE_VIEW_LEN.",
+ "C02": " Also: per-output arm agreement (sink-uniform, 14 instances) and child-window-from-offsets (a window into the shared child of a List/Map/ListView/RunEndEncoded parent starts at a computed position, never a constant; 9 sites).",
+ "C03": " Also: sink-uniform on the MutableArrayData dispatches and inline-view-threshold (18 comparison sites agree that a 12-byte view is inline).",
+ "C04": " Also: non-interference of the body codec (the codec given to write_array_data depends on the write options only, as the header's BodyCompression entry does) and sink-uniform on write_array_data.",
+ "C08": " Also: rejections-kept (2763 rejecting decisions in 705 decoder functions of the anchored files; a function that lost one while its crate's total dropped is reported) and validator-inputs-checked on the ArrayData validators.",
+ "C09": " Also two ratchets over 42 validators/constructors: every (type, field-path) input that decided a rejecting branch still does (range.start, max_value, offset_limit, ...), and no existing rejecting decision has been put behind an additional enabling condition (fast path, early continue).",
+ "C11": " Also: sink-uniform (both LengthTracker arms let initial_offset reach the pushed offsets and the returned total).",
+ "C12": " Also: the Kleene validity/value closures are decided exactly by their 16-row truth tables (computed from MIR over a finite abstract domain), and try_for_each_valid_idx receives the offset of the NullBuffer whose bitmap it is given.",
+ "C13": " Also: Utf8 and Utf8View entry points of each text cast delegate to the same generic implementations with the same type arguments (7 pairs), and the 26 DecimalCast conversions contain no narrowing `as`.",
+}
+for _k, _v in _ADD.items():
+    CLAIMED[_k]["text"] = CLAIMED[_k]["text"].rstrip() + _v
